@@ -162,6 +162,9 @@ fn vote_sweep(cx: &Ctx, e: &Epoch) {
                 s2[byte] ^= mask;
                 judge_vote(cx, e, &mk_mvote(kind, slot, HA, s2, sg), "signature-byte-flipped", &bname);
             }
+            if let Some(shifted) = plus_point_outside_subgroup(&sig) {
+                judge_vote(cx, e, &mk_mvote(kind, slot, HA, shifted, sg), "signature-plus-point-outside-subgroup", &bname);
+            }
             judge_vote(cx, e, &mk_mvote(kind, slot, HA, [0; 96], sg), "signature-zeroed", &bname);
             judge_vote(cx, e, &mk_mvote(kind, slot, HA, [0xff; 96], sg), "signature-ones", &bname);
         }
@@ -451,11 +454,74 @@ fn cert_sweep(cx: &Ctx, e: &Epoch, pairs: bool) {
             judge_cert(cx, e, &edit(&|a| { a.words[0] |= (1u64 << n) - 1; }), "all-validators-marked", &bn);
             judge_cert(cx, e, &edit(&|a| { a.words[0] &= a.words[0] - 1; }), "one-signer-unmarked", &bn);
             judge_cert(cx, e, &edit(&|a| { a.sig[95] ^= 1; }), "aggregate-byte-flipped", &bn);
+            // the aggregate plus a curve point outside the signature subgroup: every pairing is
+            // unchanged, only a subgroup check can tell the bytes are not the honest signature
+            if let Some(shifted) = plus_point_outside_subgroup(match &base {
+                MCert::Notar(c) | MCert::FastFinal(c) => &c.agg.sig,
+                MCert::Final(c) => &c.agg.sig,
+                MCert::NotarFallback(c) => &c.a1.as_ref().or(c.a2.as_ref()).unwrap().sig,
+                MCert::Skip(c) => &c.a1.as_ref().or(c.a2.as_ref()).unwrap().sig,
+            }) {
+                judge_cert(cx, e, &edit(&|a| { a.sig = shifted; }), "aggregate-plus-point-outside-subgroup", &bn);
+            }
             // aggregate replaced by a single signature
             let single: MVote = to_mirror(&honest_vote(e, match kind { 0 | 3 => 0, 1 => 0, 2 => 2, _ => 4 }, 7, &HA, s1[0]));
             let ssig = mvote_fields(&single).3;
             judge_cert(cx, e, &edit(&|a| { a.sig = ssig; }), "aggregate-replaced-by-single-signature", &bn);
         }
+    }
+}
+
+/// `sig + T` where T is a non-zero point of the curve E1 whose order is coprime to the group order
+/// (r times an on-curve point outside G1; signatures are uncompressed G1 points in the `min_sig`
+/// scheme). Returns None if the input does not deserialize.
+fn plus_point_outside_subgroup(sig: &[u8; 96]) -> Option<[u8; 96]> {
+    use blst::*;
+    use std::sync::OnceLock;
+    static T: OnceLock<Option<blst_p1>> = OnceLock::new();
+    let t = T.get_or_init(|| {
+        // group order r
+        let r_be: [u8; 32] = [
+            0x73, 0xed, 0xa7, 0x53, 0x29, 0x9d, 0x7d, 0x48, 0x33, 0x39, 0xd8, 0x08, 0x09, 0xa1, 0xd8, 0x05, 0x53, 0xbd, 0xa4, 0x02, 0xff, 0xfe, 0x5b, 0xfe, 0xff, 0xff, 0xff, 0xff, 0x00, 0x00,
+            0x00, 0x01,
+        ];
+        let mut r_le = r_be;
+        r_le.reverse();
+        for ctr in 1u8..=200 {
+            let mut bytes = [0u8; 48];
+            bytes[0] = 0x80; // compressed encoding of the point with x = ctr
+            bytes[47] = ctr;
+            let mut aff = blst_p1_affine::default();
+            // SAFETY: plain C arithmetic on stack values of the right size
+            unsafe {
+                if blst_p1_uncompress(&mut aff, bytes.as_ptr()) != BLST_ERROR::BLST_SUCCESS || blst_p1_affine_in_g1(&aff) {
+                    continue;
+                }
+                let mut p = blst_p1::default();
+                blst_p1_from_affine(&mut p, &aff);
+                let mut out = blst_p1::default();
+                blst_p1_mult(&mut out, &p, r_le.as_ptr(), 255);
+                if !blst_p1_is_inf(&out) {
+                    return Some(out);
+                }
+            }
+        }
+        None
+    });
+    let t = (*t)?;
+    // SAFETY: as above
+    unsafe {
+        let mut aff = blst_p1_affine::default();
+        if blst_p1_deserialize(&mut aff, sig.as_ptr()) != BLST_ERROR::BLST_SUCCESS {
+            return None;
+        }
+        let mut p = blst_p1::default();
+        blst_p1_from_affine(&mut p, &aff);
+        let mut sum = blst_p1::default();
+        blst_p1_add_or_double(&mut sum, &p, &t);
+        let mut out = [0u8; 96];
+        blst_p1_serialize(out.as_mut_ptr(), &sum);
+        if &out == sig { None } else { Some(out) }
     }
 }
 
@@ -466,6 +532,13 @@ pub fn run(tier: Tier) -> i32 {
     for k in 0..5 {
         roundtrip_check::<ConsensusMessage, MMsg>(&ConsensusMessage::Vote(honest_vote(&e0, k, 3, &HA, 1)), "vote");
         roundtrip_check::<ConsensusMessage, MMsg>(&ConsensusMessage::Cert(honest_cert(&e0, k, 3, &HA, &[0, 1], &[2])), "cert");
+    }
+    if std::env::var("C09_DEBUG").is_ok() {
+        let c: MMsg = to_mirror(&ConsensusMessage::Cert(honest_cert(&e0, 0, 3, &HA, &[0, 1], &[])));
+        if let MMsg::Cert(MCert::Notar(n)) = c {
+            println!("subgroup shift available: {:?}", plus_point_outside_subgroup(&n.agg.sig).map(|s| s[..8].to_vec()));
+            println!("original: {:?}", &n.agg.sig[..8]);
+        }
     }
     let mut epochs: Vec<Vec<u64>> = vec![
         vec![7],
@@ -510,7 +583,7 @@ pub fn run(tier: Tier) -> i32 {
     let cov = json!({
         "evaluations": cx.evals.load(Ordering::Relaxed),
         "distinct_nontrivial": cx.nontrivial.load(Ordering::Relaxed),
-        "rule": "per epoch: every vote kind x signer with every mutation of the menu (kind re-tag, slot, hash, signer incl. out of range, signatures transplanted from the same validator's other votes / from other validators, byte corruptions), and for every certificate type every signer subset (all pairs of halves, overlapping included, for mixed types up to n=4) plus the certificate mutation menu (declared stake, slot, hash, type re-tags, halves swapped/duplicated, bitmask shorter/longer/empty/garbage/out-of-range/2048 bits, aggregate corrupted or replaced); every case goes through the network decoder and ValidatedVote/ValidatedCert::try_new; oracle = signature bytes equal the unique honest (deterministic BLS) signature for the claimed fields and distinct signer stake meets the type's threshold; non-trivial = anything but an unmodified above-threshold message; all cases distinct by construction",
+        "rule": "per epoch: every vote kind x signer with every mutation of the menu (kind re-tag, slot, hash, signer incl. out of range, signatures transplanted from the same validator's other votes / from other validators, byte corruptions), and for every certificate type every signer subset (all pairs of halves, overlapping included, for mixed types up to n=4) plus the certificate mutation menu (declared stake, slot, hash, type re-tags, halves swapped/duplicated, bitmask shorter/longer/empty/garbage/out-of-range/2048 bits, aggregate corrupted, replaced, or shifted by a curve point outside the signature subgroup - which leaves every pairing unchanged); every case goes through the network decoder and ValidatedVote/ValidatedCert::try_new; oracle = signature bytes equal the unique honest (deterministic BLS) signature for the claimed fields and distinct signer stake meets the type's threshold; non-trivial = anything but an unmodified above-threshold message; all cases distinct by construction",
         "exhaustive": true,
         "epochs": epochs,
         "admitted": cx.accepted.load(Ordering::Relaxed),
